@@ -219,7 +219,7 @@ class Executor:
                 self.ctx.nontrivial(True)
             if res is not None and 'tuple-out-with-kw-only' not in res[1]:
                 from .c05 import d9_config, vol_in_union
-                if not d9_config(nd) and not vol_in_union(nd):
+                if not d9_config(nd):
                     self.ctx.fail('history-independent', f"roundtrip:{res[0]}", res[1] + f"  [after {len(self.ops)} operations]")
         elif kind == 'temp':
             nd = self._build(op[1])
